@@ -105,6 +105,9 @@ def run(chk):
         for st in (("zero", "identity", "other", "alias") if n else ("zero", "identity", "other")):
             light.append(("MultiScalarMult n=%d %s" % (n, st), lambda n=n, st=st: run_one(base, chk, "MultiScalarMult", st, n)))
     run_kernels(chk, heavy + items + light)
+    from sym import validate
+    validate.scalar_kernels(base, chk, 100 if chk.tier == "thorough" else 8)
+    validate.field_kernels(base, chk, 100 if chk.tier == "thorough" else 8)
     # replay failed obligations per routine on the real package
     for routine in ("ScalarMult", "ScalarBaseMult", "VarTimeDoubleScalarBaseMult", "MultiScalarMult", "VarTimeMultiScalarMult"):
         obs = [o for o in chk.obs if o.name.startswith(routine + "[")]
